@@ -129,7 +129,7 @@ class Ref:
         raise AssertionError(n)
 
 
-TEXTS = ["x", "y z", " p", "q ", "", "1", "w", "r\n", "\ns", "*li"]
+TEXTS = ["x", "y z", " p", "q ", "", "1", "w", "r\n", "\ns", "*li", "u\nv"]
 VALS = ["v", " v", "v ", " v w ", "*li", ""]
 
 
@@ -267,6 +267,15 @@ for n in range(1, maxl + 1):
 distinct.add(("bodies", count))
 ctx.close_db_conn()
 
+# a missing template called twice on one page, directly and through a template body
+ctx = new_ctx({"m": "[{{nosuch}}]"})
+ctx.start_page("Tt")
+with quiet_stdout():
+    r1 = ctx.expand("{{nosuch}} {{nosuch}} {{m}} {{m}}")
+evaluations += 1
+if r1 != "[[:Template:nosuch]] [[:Template:nosuch]] [[[:Template:nosuch]]] [[[:Template:nosuch]]]":
+    fail("core:Wtp.expand#missing-template-becomes-a-link-every-time", f"{r1!r}", {"page": "{{nosuch}} {{nosuch}} {{m}} {{m}}"})
+ctx.close_db_conn()
 # dedicated probe of the known deviation (deterministic, independent of the seed)
 ctx = new_ctx({"pv": "[{{{1}}}]"})
 ctx.start_page("Tt")
